@@ -210,7 +210,9 @@ where
                         .map_err(CodecError::DecompressFailure)?;
                 }
 
-                let batch = decode_message_batch(bytes);
+                let mut batch = decode_message_batch(bytes);
+                // Messages are handed out with `pop`, so store the batch back to front
+                batch.reverse();
                 self.message_batch = Some(batch);
                 self.poll_next(cx)
             }
